@@ -77,6 +77,7 @@ func TestC18_LicenceEscrowAndVesting(t *testing.T) {
 		cfg := map[string]bool{"funders": false, "feegranter": false, "contract": false}
 		forceRightContract := false
 		foreignActivations := 0
+		foreignSeq := 0
 		var funders []sdk.AccAddress
 		var log []string
 		skyNonce := uint64(0)
@@ -405,7 +406,23 @@ func TestC18_LicenceEscrowAndVesting(t *testing.T) {
 					ex := authz.NewMsgExec(rich.Addr, []sdk.Msg{msg})
 					msg = &ex
 				}
-				ok, _ := deliver(t, rich, msg)
+				var ok bool
+				if rapid.Bool().Draw(t, "afterOwnMessage") {
+					// ... placed behind a legitimate message of the stranger's own in the same transaction
+					foreignSeq++
+					own := &palomatypes.MsgAddStatusUpdate{Metadata: chain.MD(rich), Status: fmt.Sprintf("own-%d", foreignSeq), Level: palomatypes.MsgAddStatusUpdate_LEVEL_INFO}
+					bz, err := c.Sign([]chain.Actor{rich}, own, msg)
+					if err != nil {
+						t.Fatalf("sign: %v", err)
+					}
+					res, err := c.Block(bz)
+					if err != nil {
+						t.Fatalf("block: %v", err)
+					}
+					ok = res.TxResults[0].Code == 0
+				} else {
+					ok, _ = deliver(t, rich, msg)
+				}
 				log = append(log, fmt.Sprintf("foreignActivate(%s,depth %d)=%v", pick[len(pick)-4:], depth, ok))
 				if ok {
 					t.Fatalf("a licence was activated by an account that is not the licensee (authz nesting depth %d)\nhistory: %v", depth, log)
